@@ -19,6 +19,10 @@ class Box:
     def __init__(self, v):
         self.v = v
 
+    def __bool__(self):
+        # a parameter value may well be falsy (an empty pitch list, a zero): "defined" means "is not None"
+        return bool(self.v)
+
 
 def build(x, memo):
     i = int(x[1])
